@@ -21,7 +21,7 @@ func init() {
 		Assumptions: []string{"Metastore.Store is an atomic insert-if-absent (C13 checks the request shapes, not the database)"},
 		Tech:        "static analysis: shared insert-only / store-result / ownership rules plus guarded-by-condition provenance of the unwrapping key",
 		NeedU1:      true,
-		Rules: []func(*Ctx){ruleC13InsertOnly, ruleC13NoOtherWrites, ruleC13NothingOnlyWhenAbsent, ruleC02FreshKeyOnlyIfStored, ruleC02SuccessIsStoreBool, ruleC14LoserAdoptsStored,
+		Rules: []func(*Ctx){ruleC13InsertOnly, ruleC13NoOtherWrites, ruleC13NothingOnlyWhenAbsent, ruleC02FreshKeyOnlyIfStored, ruleC02SuccessIsStoreBool, ruleC02RecordMatchesKey, ruleC14LoserAdoptsStored,
 			ruleC14ParentReresolved, ruleC04NewKeysStampedNow, ruleC01NoValidityGateOnRead, ruleC13ConsistentReads, ruleC13StoreResult},
 	})
 }
